@@ -1097,6 +1097,8 @@ def _read_byte_str(ctx: ReaderContext) -> bytes:
 
     char = _consume_whitespace(ctx)
 
+    if char == "":
+        raise ctx.eof_error("Unexpected EOF in byte string")
     if char != '"':
         raise ctx.syntax_error(f"Expected '\"'; got '{char}' instead")
 
